@@ -80,12 +80,25 @@ Roots ==
   \cup { N("Sum", << x, y, z, KI(2), V("Y"), x, y, KI(-1), z, KI(3), y >>),
          N("Sum", << x, y, z, KI(2), V("Y"), x, y, KI(-1), z, KI(3), y, x, KI(5) >>) }
 
+\* twin subtrees: two siblings of one kind that differ in ONE constant only - constants that a
+\* careless identification confuses (hash(-1) = hash(-2) in CPython; 2 == 2.0 with equal hashes)
+TwinPairs == { << KI(-1), KI(-2) >>, << KI(-2), KI(-1) >>, << KI(2), K(FltV(2, 1)) >>, << K(FltV(2, 1)), KI(2) >> }
+TwinCtx(i, c) ==
+    CASE i = 1 -> B("Power", x, c)            [] i = 2 -> N("Product", << c, y >>)
+      [] i = 3 -> N("Sum", << x, c >>)        [] i = 4 -> B("FloorDiv", y, c)
+      [] i = 5 -> Call(ff, << c >>)           [] i = 6 -> B("Quotient", x, N("Sum", << y, c >>))
+Twins == UNION { { N("Sum", << TwinCtx(i, pr[1]), TwinCtx(i, pr[2]) >>),
+                   N("Tup", << TwinCtx(i, pr[1]), TwinCtx(i, pr[2]) >>),
+                   B("Quotient", TwinCtx(i, pr[1]), TwinCtx(i, pr[2])),
+                   Call(gg, << TwinCtx(i, pr[1]), TwinCtx(i, pr[2]) >>) }
+                 : i \in 1..6, pr \in TwinPairs }
+
 Unset == << "?" >>
 Listings == { << >>, << "x" >>, << "y" >>, << "w" >>, << "x", "y" >>, << "y", "x" >>,
               << "w", "x" >>, << "z", "w" >> }
 ListingsQ == { << >>, << "y" >>, << "y", "x" >>, << "w", "x" >> }
 
-Init == tree \in Roots /\ listed = Unset
+Init == tree \in (Roots \cup Twins) /\ listed = Unset
 Next == \/ /\ NHoles(tree) > 0
            /\ \E s \in PoolFor(FirstHoleTy(tree)) : tree' = FillFirst(tree, s)
            /\ UNCHANGED listed
